@@ -57,7 +57,7 @@ type verifC33File struct {
 }
 
 type verifC33Level struct {
-	Kind      string         `json:"kind"` // "files" (levelIter over sstables), "fake" (base.FakeIter), "mem" (memTable)
+	Kind      string         `json:"kind"` // "files" (levelIter over sstables), "fake" (verifC33SliceIter or base.FakeIter), "mem" (memTable)
 	Format    string         `json:"format,omitempty"`
 	Bloom     bool           `json:"bloom,omitempty"`
 	BlockSize int            `json:"block_size,omitempty"`
@@ -330,7 +330,7 @@ func verifC33GenLayout(rng *rand.Rand) (lay verifC33Layout, pool []string, gs ve
 
 	// Files.
 	fmts := []sstable.TableFormat{sstable.TableFormatMinSupported, sstable.TableFormatPebblev2, sstable.TableFormatPebblev3,
-		sstable.TableFormatPebblev4, sstable.TableFormatPebblev5, sstable.TableFormatPebblev6, sstable.TableFormatMax, sstable.TableFormatMax}
+		sstable.TableFormatPebblev4, sstable.TableFormatPebblev5, sstable.TableFormatPebblev6, sstable.TableFormatPebblev7, sstable.TableFormatMax, sstable.TableFormatMax}
 	for l := 0; l < nLevels; l++ {
 		c := content[l]
 		lv := verifC33Level{Kind: kinds[l]}
@@ -1324,11 +1324,12 @@ func TestVerifC33(t *testing.T) {
 	r.Rule("each case is a generated multi-level layout satisfying the level invariant (history of SET/DEL/MERGE/SINGLEDEL/SETWITHDEL " +
 		"and DeleteRange writes over testkeys prefixes/suffixes, cut into 1-3 key regions whose newer sequence numbers sit in higher levels; " +
 		"1-7 levels, each a levelIter over 1-4 real in-memory sstables (random table format, block sizes, bloom filter, tombstones truncated " +
-		"to their file), a base.FakeIter or a real memTable) driven by 2-4 mergingIters (random snapshot, bounds, invalidating wrappers) " +
+		"to their file), a slice iterator (base.FakeIter in a quarter of the sessions) or a real memTable) driven by 2-4 mergingIters " +
+		"(random snapshot, bounds, invalidating wrappers) " +
 		"with 25-100 contract-respecting ops each; distinct = distinct layout content; non-trivial = >= 2 levels holding entries, " +
 		">= 1 range tombstone or >= 2 files in a level, and >= 50 ops compared against the filter-and-sort model")
 	r.Assume("testkeys.Comparer ordering and Split; the sstable writer/reader, memTable and FakeIter children are the real ones and trusted to iterate their own content")
-	n := vcommon.Scale(10000, 120000)
+	n := vcommon.Scale(10000, 200000)
 	r.Cases(n, func(i int, rng *rand.Rand) {
 		lay, pool, gs := verifC33GenLayout(rng)
 		var sessions []*verifC33Session
